@@ -11,6 +11,7 @@ open Aqv Aqv.Proto Aqv.Net
   hmsg <code> <size> <decodes>                    aqua handleMsg front
   phs  <code> <size> <decodes>                    readProtocolHandshake front
   hs   <a|r> <plainSize> <conn> <d1> <d2> <rlp>   readHandshakeMsg size logic
+  bond <history>                                  discovery bonding history: which findnodes are served
   idv  <id>                                       NodeID.Pubkey / validateComplete: identity is a curve point
   auth <id> <ecdhOk> <recOk>                      responder handleAuthMsg for a claimed identity
 -/
@@ -258,6 +259,29 @@ def handle (l : String) : String :=
   | ["phs", code, size, dec] =>
     let m := classOf (readProtoHandshake (fun _ => dec = "1") { code := natOf code, size := natOf size, payload := List.replicate (min (natOf size) 64) 0 })
     verdict m go (go != "panic" && (natOf size ≤ baseProtocolMaxMsgSize || go == "toolarge")) "oversize-or-panic-in-proto-handshake"
+  | ["bond", evs] =>
+    -- history tokens: P:<id>:<ok|timeout|badtok>  (ping from id, then the fate of our ping-back), O:<id> (unsolicited pong), F:<id>
+    let step (acc : BondSt × List String × Nat) (tok : String) : BondSt × List String × Nat :=
+      let (st, outs, n) := acc
+      let h : Bytes := [UInt8.ofNat n]
+      match tok.splitOn ":" with
+      | ["P", id, fate] =>
+        let i := id.toUTF8.toList
+        let st1 := bondRun st [.pingRecv i, .pingSent i h]
+        let st2 := match fate with
+          | "ok" => bondRun st1 [.pongRecv i h]
+          | "badtok" => bondRun st1 [.pongRecv i (0xff :: h), .pingTimeout i]
+          | _ => bondRun st1 [.pingTimeout i]
+        (st2, outs, n + 1)
+      | ["O", id] => (bondRun st [.pongRecv id.toUTF8.toList [0xee]], outs, n + 1)
+      | ["F", id] => (bondStep st (.findnode id.toUTF8.toList), outs ++ [if findnodeServed st id.toUTF8.toList then "1" else "0"], n + 1)
+      | _ => (st, outs, n)
+    let (_, outs, _) := (evs.splitOn ",").foldl step (({} : BondSt), [], 0)
+    let m := String.intercalate "," outs
+    -- Spec: a findnode that the model refuses (no verified pong from that key) must be refused; refusing more is harmless
+    let goOuts := go.splitOn ","
+    let ok := goOuts.length == outs.length && (List.zip goOuts outs).all (fun (g, mo) => g == "0" || mo == "1")
+    verdict m go ok "findnode-served-without-a-verified-pong"
   | ["idv", hex] =>
     match bytesOfHex hex with
     | none => "bad-op\tagree"
